@@ -48,6 +48,8 @@ type VEvent struct {
 type VStatusWrite struct {
 	Resource string `json:"resource"`
 	Key      string `json:"key"`
+	Reason   string `json:"reason,omitempty"` // status.reason written (VirtualServer, VirtualServerRoute, TransportServer)
+	obj      runtime.Object
 }
 
 type verifRecorder struct {
@@ -286,6 +288,7 @@ func (v *VerifCtl) Apply(kindName, key string, obj interface{}) (evs []VEvent, w
 	v.conf.ClearActions()
 	v.lbc.sync(task{Kind: k, Key: key})
 	writes = v.statusWrites()
+	v.writeBack(writes)
 	evs = v.rec.take()
 	if verrText != "" {
 		verr.Expected = true
@@ -317,7 +320,19 @@ func (v *VerifCtl) statusWrites() []VStatusWrite {
 				}
 			}
 			if a.GetSubresource() == "status" || a.GetResource().Resource == "ingresses" {
-				writes = append(writes, VStatusWrite{Resource: a.GetResource().Resource, Key: a.GetNamespace() + "/" + name})
+				w := VStatusWrite{Resource: a.GetResource().Resource, Key: a.GetNamespace() + "/" + name}
+				if ua, ok := a.(k8stesting.UpdateAction); ok {
+					w.obj = ua.GetObject()
+					switch o := w.obj.(type) {
+					case *conf_v1.VirtualServer:
+						w.Reason = o.Status.Reason
+					case *conf_v1.VirtualServerRoute:
+						w.Reason = o.Status.Reason
+					case *conf_v1.TransportServer:
+						w.Reason = o.Status.Reason
+					}
+				}
+				writes = append(writes, w)
 			}
 		}
 	}
@@ -470,4 +485,33 @@ func (v *VerifCtl) WeightProbe() VWeightProbe {
 	v.lbc.sync(task{Kind: virtualserver, Key: "wp/foreign"})
 	v.rec.take()
 	return out
+}
+
+// writeBack plays the watch for the status writes of a sync: the informer store gets a NEW object that carries
+// the written status (the real informer replaces the cached object; whoever kept the old pointer keeps the old
+// status).  The resulting update event changes nothing but the status and is not delivered to the handlers.
+func (v *VerifCtl) writeBack(writes []VStatusWrite) {
+	nsi := v.lbc.namespacedInformers[""]
+	for _, w := range writes {
+		switch o := w.obj.(type) {
+		case *conf_v1.VirtualServer:
+			if cur, ok, _ := nsi.virtualServerLister.GetByKey(w.Key); ok {
+				n := cur.(*conf_v1.VirtualServer).DeepCopy()
+				n.Status = *o.Status.DeepCopy()
+				_ = nsi.virtualServerLister.Add(n)
+			}
+		case *conf_v1.VirtualServerRoute:
+			if cur, ok, _ := nsi.virtualServerRouteLister.GetByKey(w.Key); ok {
+				n := cur.(*conf_v1.VirtualServerRoute).DeepCopy()
+				n.Status = *o.Status.DeepCopy()
+				_ = nsi.virtualServerRouteLister.Add(n)
+			}
+		case *conf_v1.TransportServer:
+			if cur, ok, _ := nsi.transportServerLister.GetByKey(w.Key); ok {
+				n := cur.(*conf_v1.TransportServer).DeepCopy()
+				n.Status = *o.Status.DeepCopy()
+				_ = nsi.transportServerLister.Add(n)
+			}
+		}
+	}
 }
